@@ -52,7 +52,84 @@ fn apply_edits(m: &mut Module, ids: &InputIds, input: &[u8], rng: &mut Rng, log:
     let mut pinned_globals: Vec<GlobalId> = Vec::new();
     let mut pinned_datas: Vec<walrus::DataId> = Vec::new();
     for step in 0..n {
-        match rng.below(18) {
+        match rng.below(24) {
+            16 | 17 => {
+                // a new local in an existing (parsed or built) function: allocated now, so newer than the
+                // function's parameters and locals; written and read in front of the body
+                let locals: Vec<FunctionId> = m.funcs.iter_local().map(|(id, _)| id).filter(|f| !deleted_funcs.contains(f)).collect();
+                if locals.is_empty() {
+                    continue;
+                }
+                let target = *rng.pick(&locals);
+                let (ty, val) = match rng.below(4) {
+                    0 => (ValType::I32, Value::I32(7)),
+                    1 => (ValType::I64, Value::I64(7)),
+                    2 => (ValType::F32, Value::F32(7.0)),
+                    _ => (ValType::F64, Value::F64(7.0)),
+                };
+                let l = m.locals.add(ty);
+                let f = m.funcs.get_mut(target).kind.unwrap_local_mut();
+                let mut b = f.builder_mut().func_body();
+                b.instr_at(0, walrus::ir::Const { value: val });
+                b.instr_at(1, walrus::ir::LocalSet { local: l });
+                b.instr_at(2, walrus::ir::LocalGet { local: l });
+                b.instr_at(3, walrus::ir::Drop {});
+                log.push("new-local-in-existing-function".into());
+            }
+            18 => {
+                // delete an export (always well-formed; may leave a ref.func target without a declaration)
+                let es: Vec<walrus::ExportId> = m.exports.iter().map(|e| e.id()).collect();
+                if !es.is_empty() {
+                    let e = *rng.pick(&es);
+                    if rng.bool() {
+                        m.exports.delete(e);
+                    } else {
+                        let name = m.exports.get(e).name.clone();
+                        let _ = m.exports.remove(&name);
+                    }
+                    log.push("delete-export".into());
+                }
+            }
+            19 | 20 => {
+                // grow what is there: limits (within the maximum), segment contents
+                match rng.below(4) {
+                    0 => {
+                        let ts: Vec<TableId> = m.tables.iter().map(|t| t.id()).collect();
+                        if !ts.is_empty() {
+                            let t = m.tables.get_mut(*rng.pick(&ts));
+                            if t.maximum.map(|mx| t.initial < mx).unwrap_or(true) && t.initial < 1000 {
+                                t.initial += 1;
+                            }
+                        }
+                    }
+                    1 => {
+                        let ms: Vec<MemoryId> = m.memories.iter().map(|t| t.id()).collect();
+                        if !ms.is_empty() {
+                            let t = m.memories.get_mut(*rng.pick(&ms));
+                            if t.maximum.map(|mx| t.initial < mx).unwrap_or(true) && t.initial < 100 {
+                                t.initial += 1;
+                            }
+                        }
+                    }
+                    2 => {
+                        let ds: Vec<walrus::DataId> = m.data.iter().map(|d| d.id()).collect();
+                        if !ds.is_empty() {
+                            m.data.get_mut(*rng.pick(&ds)).value.extend_from_slice(&[0xEE, step as u8]);
+                        }
+                    }
+                    _ => {
+                        let fs: Vec<FunctionId> = m.funcs.iter().map(|f| f.id()).filter(|f| !deleted_funcs.contains(f)).collect();
+                        let es: Vec<walrus::ElementId> = m.elements.iter().filter(|e| matches!(e.items, ElementItems::Functions(_))).map(|e| e.id()).collect();
+                        if !es.is_empty() && !fs.is_empty() {
+                            let f = *rng.pick(&fs);
+                            if let ElementItems::Functions(v) = &mut m.elements.get_mut(*rng.pick(&es)).items {
+                                v.push(f);
+                            }
+                        }
+                    }
+                }
+                log.push("grow-limits-or-segments".into());
+            }
             14 | 15 => {
                 // new references from code: instructions naming an existing segment, function, global, table or
                 // memory are put in front of a function body (operand-neutral sequences)
